@@ -88,3 +88,40 @@ package metadata
 //@     assert [table-entry-dropped-only-when-no-segment-is-left-under-it] len(hm.tableSortedMetadata[table]) == 0
 //@   bounded metadata/deletetable_test.go Test_Bounded_DeleteTable n<=7 segments of one organisation under the deleted index (with and without ties in the sort key), m<=2 segments of another index (48 inputs): nothing of the deleted index is left in the three in-memory structures, the other index keeps everything
 //@ end
+
+// C18 (a damaged file is reported, the server never hangs): loadSearchMetadata
+// runs under the segment's own lock smiLock, which is not re-entrant.  On a
+// block-summary file that the decoder rejects it must clear the half-loaded
+// state through the helper that EXPECTS the lock to be held; the helper that
+// takes the lock itself would wait for this very goroutine for ever (and every
+// later query of the segment behind it).  Ghost smiHeld (per segment object):
+// this activation holds smiLock.  Lock discipline as contracts: the
+// lock-taking helper requires the lock not to be held by the caller, the other
+// one requires it to be held.
+//@ ghostdecl smiHeld int
+//@ func (*SegmentMicroIndex).clearSearchMetadataWithLock
+//@   props C18
+//@   requires smi != nil
+//@   requires [the-caller-holds-the-segment-lock] ghost(smi, "smiHeld") == 1
+//@   modifies smi.BlockSearchInfo, smi.BlockSummaries, smi.loadedSearchMetadata
+//@   ensures [nothing-counts-as-loaded] !smi.loadedSearchMetadata && len(smi.BlockSummaries) == 0
+//@ end
+//@ func (*SegmentMicroIndex).clearSearchMetadata
+//@   props C18
+//@   requires smi != nil && smi.smiLock != nil
+//@   requires [the-segment-lock-is-not-reentrant-so-the-caller-must-not-hold-it] ghost(smi, "smiHeld") == 0
+//@   site call smi.smiLock.Lock #1:
+//@     ghostset ghost(smi, "smiHeld") = 1
+//@   site call smi.smiLock.Unlock #1:
+//@     ghostset ghost(smi, "smiHeld") = 0
+//@   ensures [lock-released] ghost(smi, "smiHeld") == 0
+//@   ensures [nothing-counts-as-loaded] !smi.loadedSearchMetadata
+//@ end
+//@ func (*SegmentMicroIndex).loadSearchMetadata
+//@   props C18
+//@   requires sm != nil && sm.smiLock != nil
+//@   requires [called-without-the-segment-lock] ghost(sm, "smiHeld") == 0
+//@   site call sm.smiLock.Lock #1:
+//@     ghostset ghost(sm, "smiHeld") = 1
+//@   ensures [a-failed-load-never-counts-as-loaded] implies(result != nil, !sm.loadedSearchMetadata)
+//@ end
